@@ -33,6 +33,7 @@ func main() {
 	g.pinnedNamed()
 	g.pinnedKMap()
 	g.pinnedNMap()
+	g.pinnedVariadic()
 	g.sweepDelElem()
 	g.pinnedCallback()
 	g.fieldWriteCase(0, &gty{rt: kinds[0].rt, coq: "(TNum KI)", kind: "num", nk: 0}, jsString("eighty"))
